@@ -201,6 +201,26 @@ def _add_component_to_parser(
     return added_args
 
 
+def _call_component(component, cfg):
+    """Calls component with the values in cfg; positional-only parameters can't be given by keyword."""
+    args = []
+    try:
+        params = list(inspect.signature(component).parameters.values())
+    except (TypeError, ValueError):
+        params = []
+    positional_only = [p for p in params if p.kind == inspect.Parameter.POSITIONAL_ONLY]
+    given = [n for n, p in enumerate(positional_only) if p.name in cfg]
+    if given:
+        for p in positional_only[: given[-1] + 1]:
+            if p.name in cfg:
+                args.append(cfg.pop(p.name))
+            elif p.default is not inspect.Parameter.empty:
+                args.append(p.default)  # not offered in the parser, keeps its default
+            else:
+                break
+    return component(*args, **cfg)
+
+
 def _run_component(component, cfg):
     cfg.pop("config", None)
     # only classes with methods have a subcommands dest, otherwise "subcommand" can only be a parameter
@@ -212,11 +232,11 @@ def _run_component(component, cfg):
         # a method with a "config" parameter does not get a --config option, see _add_component_to_parser
         if isinstance(method_object, property) or not has_parameter(method_object, "config"):
             subcommand_cfg.pop("config", None)
-        component_obj = component(**cfg)
+        component_obj = _call_component(component, cfg)
         if isinstance(method_object, property):
             return getattr(component_obj, subcommand)
         component = getattr(component_obj, subcommand)
         cfg = subcommand_cfg
     if inspect.iscoroutinefunction(component):
-        return __import__("asyncio").run(component(**cfg))
-    return component(**cfg)
+        return __import__("asyncio").run(_call_component(component, cfg))
+    return _call_component(component, cfg)
